@@ -292,7 +292,12 @@ class IpV6Anonymizer(_BaseIpAnonymizer):
 
 
 def _anonymize_match(anonymizer, match, undo_ip_anon):
-    ip = anonymizer.make_addr(match)
+    try:
+        ip = anonymizer.make_addr(match)
+    except ValueError:
+        # Text accepted by the address pattern that is not a valid address
+        # (e.g. "fe80:%x") is left as is instead of aborting the whole file
+        return match
     ip_int = int(ip)
     if not anonymizer.should_anonymize(ip_int):
         logging.debug("Should not anonymize %s, skipping", ip)
